@@ -14,4 +14,5 @@ import RjModel.Props.C13
 import RjModel.Props.C14
 import RjModel.Props.C15
 import RjModel.Props.C16
+import RjModel.Props.C18
 import RjModel.Model.ParseSettings
